@@ -214,6 +214,11 @@ func (w *Worker) Sample(v any) {
 	w.mu.Unlock()
 }
 func (w *Worker) Violation(signature string, witness any) {
+	if strings.HasPrefix(signature, "panic@?") {
+		b, _ := json.Marshal(witness)
+		w.HarnessError("panic outside tongo (" + signature + "): " + Trunc(string(b), 600))
+		return
+	}
 	w.mu.Lock()
 	w.flushLocked()
 	w.d.Viol = signature
